@@ -48,6 +48,7 @@ type Contract struct {
 	Labels map[*Clause]string
 	Lets   map[string]Expr
 	CallReqs []*CallReq // extra conditions at call sites inside this function
+	CancellableSends bool // every channel send of this function sits in a select next to a receive from a context's Done channel
 	InitReq  map[int]bool // indexes into Requires: established by package init, not re-proved at call sites
 	SendReqs []*Clause  // conditions on values this function sends on a channel ("sent" names the value)
 	SendSite []int      // per SendReqs entry: 0 = every send site, k = only the k-th send site in source order
@@ -59,7 +60,7 @@ type Contract struct {
 }
 
 var clauseKeywords = map[string]bool{
-	"func": true, "mode": true, "props": true, "trusted": true, "requires": true, "ensures": true, "initrequires": true,
+	"func": true, "mode": true, "props": true, "trusted": true, "requires": true, "ensures": true, "initrequires": true, "cancellablesends": true,
 	"assigns": true, "nopanic": true, "pure": true, "loop": true, "invariant": true, "decreases": true,
 	"note": true, "funcfield": true, "iface": true, "global": true, "let": true, "oracle": true, "covers": true, "def": true, "callreq": true, "sendreq": true, "preserves": true, "retreq": true, "recvassume": true, "onskip": true, "iterpost": true,
 }
@@ -230,6 +231,8 @@ func parseContractLines(sc *bufio.Scanner, path, pkgPath string) ([]*Contract, e
 			for _, f := range strings.Fields(strings.ReplaceAll(rc.text, ",", " ")) {
 				cur.Preserves = append(cur.Preserves, f)
 			}
+		case "cancellablesends":
+			cur.CancellableSends = true
 		case "oracle":
 			cur.Oracle = true
 		case "covers":
